@@ -140,6 +140,16 @@ func judgeC01(c SrvCase) []Violation {
 				continue
 			}
 			sz := *o.Sa.Size
+			if o.Guard != nil {
+				// the guard names a ctime the file does not have: refused with NOT_SYNC, the bytes stay (compared with the backend below)
+				if st != 10002 {
+					bad("guarded-setattr-not-refused", fmt.Sprintf("SETATTR(size=%d) guarded by a ctime the file does not have replied %d, want NFS3ERR_NOT_SYNC", sz, st), o)
+					if st == 0 && sz <= backendMax {
+						f.data = resize(f.data, int(sz))
+					}
+				}
+				break
+			}
 			if st == 0 {
 				if sz > backendMax {
 					bad("setattr-size", "SETATTR(size) beyond the backend's limit reported success", o)
@@ -312,8 +322,13 @@ func genC01(rng *rand.Rand, n int) SrvCase {
 			default:
 				sz = uint64(rng.Intn(sizes[name] + 30))
 			}
-			c.Ops = append(c.Ops, SOp{Kind: "setattr", Dir: "/" + name, Sa: Sattr{Size: p64(sz)}})
-			if sz < 1<<20 {
+			so := SOp{Kind: "setattr", Dir: "/" + name, Sa: Sattr{Size: p64(sz)}}
+			if rng.Intn(4) == 0 {
+				// sattrguard3 with a ctime the object does not have: NFS3ERR_NOT_SYNC, nothing applied
+				so.Guard = &[2]uint32{7, uint32(rng.Intn(3))}
+			}
+			c.Ops = append(c.Ops, so)
+			if sz < 1<<20 && so.Guard == nil {
 				sizes[name] = int(sz)
 			}
 		default:
